@@ -117,12 +117,16 @@ fn sink_one<L: Tab + std::fmt::Display + std::fmt::LowerHex + std::fmt::Binary>(
         let caps: Vec<usize> = if len <= 80 { (0..len).collect() } else { vec![0, 1, 3, 4, 5, 15, 16, 17, 20, 21, len / 2, len - 2, len - 1] };
         for cap in caps {
             for mode in 0..3 {
-                let mut sink = Limited { buf: String::new(), cap };
-                let _ = match mode {
-                    0 => write!(sink, "{}", a),
-                    1 => write!(sink, "{:x}", a),
-                    _ => write!(sink, "{:b}", a),
-                };
+                // the failing write itself may return an error or even panic: only what is
+                // printed afterwards is judged
+                let _ = guarded(|| {
+                    let mut sink = Limited { buf: String::new(), cap };
+                    let _ = match mode {
+                        0 => write!(sink, "{}", a),
+                        1 => write!(sink, "{:x}", a),
+                        _ => write!(sink, "{:b}", a),
+                    };
+                });
                 if let Some(bad) = [(&a, t), (&b, &u)].iter().find_map(|(l, m)| {
                     let texts = (l.t_hex(), l.t_bin(), format!("{}", l), format!("{:b}", l));
                     let want = (m.hex(), m.bin(), format!("Lut{}({})", m.n, m.hex()), format!("Lut{}({})", m.n, m.bin()));
@@ -140,7 +144,7 @@ fn sink_one<L: Tab + std::fmt::Display + std::fmt::LowerHex + std::fmt::Binary>(
     });
     match r {
         Ok(v) => v,
-        Err(p) => fail("formatting into a failing sink returns an error, not a panic", p),
+        Err(p) => fail("printing after a failed write returns", p),
     }
 }
 
